@@ -63,8 +63,9 @@ SPEC = {
     "level_text": "Counter-file half of C05 (the uploader half is a separate suite). Machine-checked (Coq 8.16, no "
                   "axioms): for EVERY file (any length >= end of the hash table, any bytes) and every name: "
                   "C05_lookup_total (lookup returns within len/32+3 walk iterations, no access outside the mapping), "
-                  "C05_newcounter_total (newCounter returns after at most one extension, no fault, outside the class "
-                  "`wraps`), C05_parse_total (Parse, cited from C06), C05_newcounter_frame / C05_add_frame / "
+                  "C05_newcounter_total (newCounter returns after at most one extension, no fault, for every file: the "
+                  "4 GiB wrap-around found by this check is closed by fix 633eed3, C05_newcounter_wrap_fixed), "
+                  "C05_parse_total (Parse, cited from C06), C05_newcounter_frame / C05_add_frame / "
                   "C05_other_cell_preserved (a call, successful or failed, writes only the limit word, the head word "
                   "of its own bucket, its own record after the hash table, its own cell: value cells of records below "
                   "the limit found in the file never change); for EVERY fault plan: C05_open_total (<= 12 calls, "
@@ -73,7 +74,6 @@ SPEC = {
                   "Computed refutations showing what each guard is for and what no guard prevents: "
                   "C05_lookup_unbounded_refuted (no walk bound = before fix a9b3f3d: diverges), "
                   "C05_table_unprotected_refuted (no table bound = before fix 69df376: bucket heads overwritten), "
-                  "C05_newcounter_wrap_refuted (known finding limit-wrap-hang: the real code hangs), "
                   "C05_isolation_limit_refuted (known finding limit-below-records).",
     "level_note": "Proved about the models, sampled for the code by the suite fault-file. Model/FileRest is ONE process on "
                   "a file at rest (the mapping is the whole file); interference of other processes on damaged files is "
